@@ -383,3 +383,43 @@ def twins_stream(ctx):
                     res.samples.append(l.strip()[:500]); break
     keep_failing_histories(ctx, res)
     return res
+
+
+def reporters_stream_for(kind, quick_n, thorough_n):
+    """C19, Datadog (kind='datadog') and OpenTelemetry (kind='otel') parts"""
+    def stream(ctx):
+        res = StreamResult(kind)
+        os.makedirs(ctx.scratch, exist_ok=True)
+        bindir = ctx.harness("reporters", flags="")
+        drv = ctx.driver()
+        n = ctx.scale(quick_n, thorough_n)
+        files, cmds = [], []
+        for s in range(16):
+            f = os.path.join(ctx.scratch, "%s-%d.txt" % (kind, s))
+            cmds.append("%s/vreporters %s --seed %d --n %d --out %s" % (bindir, kind, ctx.seed * 1000 + s, n, f)); files.append(f)
+        for rc, out in vc.parallel(cmds):
+            if rc != 0:
+                raise BuildError("harness %s run failed: %s" % (kind, out[-2000:]))
+        outs = vc.parallel(["%s reporters %s" % (drv, f) for f in files])
+        for (rc, out), f in zip(outs, files):
+            if rc != 0:
+                raise BuildError("model driver failed on %s: %s" % (f, out[-2000:]))
+            for line in out.split("\n"):
+                if line.startswith("DISAGREE "):
+                    m = re.match(r"DISAGREE (\d+) (.*)$", line)
+                    res.disagreements.append({"line": int(m.group(1)), "detail": m.group(2)[:1500], "file": f})
+                elif line.startswith("ORACLEFAIL "):
+                    m = re.match(r"ORACLEFAIL (\d+) (.*)$", line)
+                    res.oracle_fails.append({"line": int(m.group(1)), "case": m.group(2)[:1500], "file": f})
+                elif line.startswith("SUMMARY "):
+                    kv = dict(x.split("=") for x in line.split()[1:])
+                    res.cases += int(kv.get("cases", 0)); res.nontrivial += int(kv.get("nontrivial", 0))
+            collect_stats(res, f, nsamples=0)
+        for f in files[:1]:
+            with open(f, errors="replace") as fh:
+                for l in fh:
+                    if l[:2] in ("D ", "O ") and len(l) > 60:
+                        res.samples.append(l.strip()[:600]); break
+        keep_failing_files(ctx, res)
+        return res
+    return stream
